@@ -1,7 +1,7 @@
 """C03 - right result to the right future, at-most-once execution, map == builtin map."""
 import itertools
 
-from ..sim import programs as PG, simcheck
+from ..sim import programs as PG, simcheck, tasks as T
 
 ORACLE = "vf.sim.props:c03"
 
@@ -28,6 +28,14 @@ def plan(tier):
         for c in (1, 2, 3, 5):
             for l in ((4, 4), (5, 3), (2, 5), (3, 3, 3), (0, 2), (1, 1)):
                 pl.append((PG.map_prog(c, l, 2, None, shape=shape), 0, PT))
+    # the values themselves: functions returning (empty) lists, nested lists, None, strings,
+    # tuples, dicts - alone in their chunk, in full chunks, in the left-over chunk
+    for fn in T.VALUE_FNS:
+        for c, n in ((1, 1), (1, 3), (2, 3), (3, 4), (2, 2), (4, 1)):
+            pl.append((PG.map_prog(c, (n,), 2, None, fn=fn), 0, PT))
+    for kind in ("reusable",):
+        for fn in ("vlist", "vnest", "vnone"):
+            pl.append((PG.map_prog(1, (2,), 2, None, kind=kind, fn=fn), 0, PT))
     # the lazy result iterator consumed only partly, then dropped (the rest is cancelled)
     for c, l, take in ((1, (4,), 2), (2, (5,), 3), (2, (4, 4), 1), (3, (5,), 0), (1, (3,), 3)):
         pl.append((PG.map_partial(c, l, take), 1 if (c, take) in ((2, 3), (1, 2)) else 0, PT))
